@@ -331,6 +331,23 @@ func checkC13(c *Ctx) error {
 			c.Sample(map[string]any{"cell": fmt.Sprintf("%+v", cell), "config": u.Files[0].Content, "expected_getters": expectedGetterMethods(u.Cfg)})
 		}
 	}
+	// a getter type of the configuration's own package that is spelled like a parameter, result or local of the generated
+	// accessors (ctx, err, result, …) still denotes that type
+	{
+		su, tw, lb := shadowUnits()
+		var du []*probe.Unit
+		var dt []*cfg.Config
+		var dl []string
+		for k := range su {
+			if strings.HasPrefix(lb[k], "type:") {
+				du, dt, dl = append(du, su[k]), append(dt, tw[k]), append(dl, lb[k])
+			}
+		}
+		if err := runUnits(c, lab, du, false); err != nil {
+			return err
+		}
+		judgeShadowUnits(c, du, dt, dl)
+	}
 	if len(runtimeAPI) == 0 {
 		c.Inconclusive("the runtime API was never observed by reflection")
 		return nil
